@@ -49,7 +49,7 @@ def run(rep, tier, replay):
                       dict(kind="inproc", cls="emit-replay", harness="replay_emit", behaviour=beh, failure=line))
     files = corpus(rng, tier)
     cases = []
-    nvar = 10 if tier == "quick" else 40
+    nvar = 8 if tier == "quick" else 40
     for name, data in files:
         try:                                              # one-byte output buffers only for tiny outputs
             small_out = len(bz2.decompress(data)) <= 1500
